@@ -35,7 +35,10 @@ LEVEL_TEXT = (
     "(sched_result, getAsync_result); the recursive evaluation is a well-defined unique fixed point "
     "(den_fixpoint, den_unique). start_state_from_dask (explicit-stack traversal, transliterated) is proved to "
     "terminate within its fuel, never to raise on a closed graph and to establish the scheduler invariant "
-    "(start_ok = Sched.startState_ok), so get_async_correct states the property with no hypothesis beyond: graph "
+    "(start_ok = Sched.startState_ok; the visited keys are exactly those reachable from the request, "
+    "seen_iff_reachable), nested_get keeps the request's nesting (nestedGet_shape), the FIFO adversary = the "
+    "synchronous scheduler is never rejected and ends within #keys iterations (sync_scheduler_terminates), so "
+    "get_async_correct states the property with no hypothesis beyond: graph "
     "acyclic and closed, dependencies listed once, requested keys present. The tie: the real `state` dict is "
     "compared with the model at every callback of get_async under a controlled executor with the same adversary "
     "choices; start_state_from_dask, finish_task, release_data are also diffed at function level.")
